@@ -12,6 +12,9 @@ structure PW where
   /-- `bytesAfterPrefix` -/
   bap : Nat := 0
 
+/-- the writer is at the start of a line (the next non-empty `Write` begins with the prefix) -/
+def PW.atStart (pw : PW) : Bool := decide (pw.bap = 0)
+
 structure LoopResult where
   /-- the `Sink.Write` calls, in order -/
   chunks : List (List UInt8)
